@@ -10,11 +10,14 @@ CONFIGS = {
 }
 
 VARIANTS = {
-    "rel":          {"profile": "release", "features": ["tables"]},
-    "rel-notables": {"profile": "release", "features": []},
-    "chk":          {"profile": "checked", "features": ["tables"]},
-    "chk-notables": {"profile": "checked", "features": []},
-    "rel-legacy":   {"profile": "release", "features": ["tables", "legacy"]},
+    "rel":          {"profile": "release", "features": ["tables", "zeroize", "ed"]},
+    "rel-notables": {"profile": "release", "features": ["zeroize", "ed"]},
+    "chk":          {"profile": "checked", "features": ["tables", "zeroize", "ed"]},
+    "chk-notables": {"profile": "checked", "features": ["zeroize", "ed"]},
+    "rel-legacy":   {"profile": "release", "features": ["tables", "legacy", "zeroize", "ed"]},
+    # curve25519-dalek and x25519-dalek built without their `zeroize` feature (C05: a feature that must not change any
+    # result); ed25519-dalek is left out of this build because its alloc feature switches zeroize back on everywhere
+    "rel-nozeroize": {"profile": "release", "features": ["tables"]},
 }
 
 ALL_BACKENDS = ["simd", "serial64", "serial32", "fiat64", "fiat32", "avx512"]
@@ -120,7 +123,7 @@ PROPS["C07"] = _std(
     "Exhaustive over structured (k, u) alphabets and all short bit strings against the RFC 7748 ladder, which shares no code or formulas with the Edwards arithmetic.",
     "DESIGN.md section 4, C07",
     "exhaustive alphabet enumeration against an RFC 7748 transcription",
-    lambda tier: [R("simd"), R("serial32"), R("simd", "rel-legacy")] if tier == "quick" else [R(b) for b in ALL_BACKENDS] + [R("simd", "rel-notables"), R("simd", dispatch="serial"), R("simd", "rel-legacy"), R("serial32", "rel-legacy")],
+    lambda tier: [R("simd"), R("serial32"), R("simd", "rel-legacy"), R("simd", "rel-nozeroize")] if tier == "quick" else [R(b) for b in ALL_BACKENDS] + [R("simd", "rel-notables"), R("simd", dispatch="serial"), R("simd", "rel-legacy"), R("serial32", "rel-legacy"), R("simd", "rel-nozeroize"), R("serial32", "rel-nozeroize")],
 )
 
 PROPS["C08"] = _std(
@@ -130,7 +133,7 @@ PROPS["C08"] = _std(
     "Explicit-state exploration of (key, message, context, signature) tuples within mutation distance 2 of honest ones, plus exhaustive signing alphabets, against an RFC 8032 transcription self-tested on the RFC vectors.",
     "DESIGN.md section 4, C08",
     "explicit-state BFS over verification tuples + exhaustive signing alphabet against an RFC 8032 transcription",
-    lambda tier: [R("simd"), R("serial32", "rel-notables")] if tier == "quick" else [R(b, deep=(b == "simd")) for b in ALL_BACKENDS] + [R("simd", "rel-notables"), R("simd", dispatch="serial")],
+    lambda tier: [R("simd"), R("serial32", "rel-notables"), R("simd", dispatch="serial"), R("avx512")] if tier == "quick" else [R(b, deep=(b == "simd")) for b in ALL_BACKENDS] + [R("simd", "rel-notables"), R("simd", dispatch="serial")],
 )
 
 PROPS["C09"] = _std(
@@ -140,7 +143,7 @@ PROPS["C09"] = _std(
     "Exhaustive over a structured adversarial alphabet that contains accepting small-order/mixed-order cases by construction; with and without legacy_compatibility.",
     "DESIGN.md section 4, C09",
     "exhaustive adversarial-alphabet enumeration against the documented acceptance rule",
-    lambda tier: [R("simd"), R("simd", "rel-legacy")] if tier == "quick" else [R("simd"), R("simd", "rel-legacy"), R("simd", dispatch="serial"), R("serial32"), R("serial32", "rel-legacy"), R("serial64"), R("fiat64"), R("fiat32"), R("avx512")],
+    lambda tier: [R("simd"), R("simd", "rel-legacy"), R("simd", dispatch="serial"), R("serial32", "rel-notables"), R("avx512")] if tier == "quick" else [R("simd"), R("simd", "rel-legacy"), R("simd", dispatch="serial"), R("serial32"), R("serial32", "rel-legacy"), R("serial32", "rel-notables"), R("serial64"), R("fiat64"), R("fiat32"), R("avx512"), R("avx512", dispatch="avx2")],
 )
 
 
@@ -279,18 +282,20 @@ def _cfgname(r):
 
 def _c05_runs(tier):
     if tier == "quick":
-        cfgs = [R("simd"), R("simd", dispatch="serial"), R("serial32"), R("serial32", "rel-notables"), R("avx512"), R("fiat64")]
+        cfgs = [R("simd"), R("simd", dispatch="serial"), R("serial32"), R("serial32", "rel-notables"), R("avx512"), R("fiat64"), R("simd", "rel-nozeroize")]
         streams = ["C02", "C04", "C07", "C08", "C09", "C12", "C16"]
     else:
         cfgs = []
         for v in ("rel", "rel-notables"):
             cfgs += [R("simd", v), R("simd", v, dispatch="serial"), R("serial64", v), R("serial32", v), R("fiat64", v), R("fiat32", v),
                      R("avx512", v), R("avx512", v, dispatch="avx2"), R("avx512", v, dispatch="serial")]
-        cfgs += [R("simd", "rel-legacy"), R("serial32", "rel-legacy")]
+        cfgs += [R("simd", "rel-legacy"), R("serial32", "rel-legacy"), R("simd", "rel-nozeroize"), R("serial32", "rel-nozeroize"), R("avx512", "rel-nozeroize")]
         streams = STREAMS
     out = []
     for c in cfgs:
         for s in streams:
+            if c["variant"] == "rel-nozeroize" and s not in ("C02", "C03", "C04", "C06", "C07", "C12"):
+                continue  # that build has no ed25519-dalek
             d = dict(c)
             d["prop"] = s
             d["tier"] = "quick"
@@ -301,7 +306,7 @@ def _c05_runs(tier):
 
 PROPS["C05"] = _std(
     "exploration",
-    "the union of the public-API request streams of the C02/C03/C04/C06/C07/C08/C09/C16 explorers (every request is keyed by operation and arguments; replies are result bytes and accept/reject bits) is replayed on every configuration: 6 backend builds, run-time dispatch forced to each implementation a build contains, precomputed tables on/off, legacy on/off; "
+    "the union of the public-API request streams of the C02/C03/C04/C06/C07/C08/C09/C16 explorers (every request is keyed by operation and arguments; replies are result bytes and accept/reject bits) is replayed on every configuration: 6 backend builds, run-time dispatch forced to each implementation a build contains, precomputed tables on/off, legacy on/off, the crates' `zeroize` feature on/off; "
     "order-independent digests of (request, reply) pairs are compared, and a mismatch is bisected to the single request by transcript diff. Each stream is also checked against the reference model on every configuration, so an agreeing-but-wrong answer is a violation too. distinct_nontrivial = distinct (stream, digest) pairs seen (1 per stream when all configurations agree).",
     "Differential exploration across all buildable configurations on structured request streams; forced dispatch proves which implementation executed.",
     "DESIGN.md section 4, C05",
